@@ -38,7 +38,7 @@ ASSUMPTIONS = ["virtual time; sources are healthy channels (source failures are 
 
 def budget(tier: str) -> dict[str, Any]:
     if tier == "quick":
-        return {"shards": 8, "cases": 120}
+        return {"shards": 8, "cases": 1200}
     return {"shards": 32, "cases": 2500, "hashseeds": [0, 1, 2, 3]}
 
 
